@@ -894,6 +894,100 @@ fn emit_parse(out: &mut Out, case: &str, text: &str) {
     out.line(format!("(sty parse (toks {}))", toks.join(" ")).replace("(toks )", "(toks)"), imp, format!("{case} parse {text:?}"));
 }
 
+/// `(sty parse-entity …)`: the real parser on one standard entity declaration (empty namespace, no resolution)
+fn emit_parse_entity(out: &mut Out, case: &str, text: &str) {
+    let Some(toks) = lex(text) else { return };
+    if toks.iter().any(|t| t == "at") {
+        return;
+    }
+    let imp = match guard(|| Fragment::<RawName>::from_cedarschema_str(text, ext()).map(|x| x.0)) {
+        Ok(Ok(f)) => {
+            if f.0.len() != 1 {
+                return;
+            }
+            let Some(ns) = f.0.values().next() else { return };
+            if !ns.common_types.is_empty() || !ns.actions.is_empty() || ns.entity_types.is_empty() {
+                return;
+            }
+            let mut names: Vec<String> = ns.entity_types.keys().map(|k| qs(&k.to_string())).collect();
+            names.sort();
+            let Some(first) = ns.entity_types.values().next() else { return };
+            let json_schema::EntityTypeKind::Standard(st) = &first.kind else { return };
+            let (Some(shape), tags) = (ty_sx(&strip_annotations(&st.shape.0)), st.tags.as_ref().map(|t| ty_sx(&strip_annotations(t)))) else { return };
+            let tags = match tags {
+                None => "(notags)".to_string(),
+                Some(Some(t)) => format!("(tags {t})"),
+                Some(None) => return,
+            };
+            format!("(ok (names{}) (in{}) {shape} {tags})", names.iter().map(|n| format!(" {n}")).collect::<String>(),
+                st.member_of_types.iter().map(|m| format!(" {}", qs(&m.to_string()))).collect::<String>())
+        }
+        Ok(Err(e)) => {
+            // a repeated name is refused after parsing (not part of the grammar the model mirrors)
+            let msg = format!("{e:?}");
+            if msg.contains("Duplicate") || msg.contains("duplicate") {
+                out.count("model:parse-entity:skipped-duplicate-name");
+                return;
+            }
+            "(err)".to_string()
+        }
+        Err(_) => {
+            out.propfail("schema parser panicked", case, text);
+            return;
+        }
+    };
+    out.nontrivial(&format!("parse-entity|{}", toks.join(" ")));
+    out.count(if imp == "(err)" { "model:parse-entity:err" } else { "model:parse-entity:ok" });
+    out.line(format!("(sty parse-entity (toks {}))", toks.join(" ")), imp, format!("{case} parse-entity {text:?}"));
+}
+
+/// entity declaration texts: every optional part of the `Entity` production in every form, keywords as names, and
+/// single-token mutations
+fn entity_decl_texts(r: &mut Rng, n: usize) -> Vec<String> {
+    let names = ["A", "B", "User", "in", "tags", "entity", "Set", "enum", "type", "namespace", "action", "Long", "if", "true", "__cedar", "_x1"];
+    let paths = ["G", "NS::G", "A::B::C", "Set", "in", "tags", "NS::if", "__cedar::Long", "Long"];
+    let shapes = ["{}", "{ a: Long }", "{ a: Long, }", "{ a?: Set<String>, \"b c\": NS::T }", "{ a: { b?: Long } }", "{ tags: tags, in?: in }", "{ a Long }", "{ a: }", "Set<Long>", "T"];
+    let tys = ["String", "Set<String>", "NS::T", "{ a: Long }", "Set<Set<Long>>", "Set", "tags", "", "Set<"];
+    let mut res = Vec::new();
+    for _ in 0..n {
+        let mut t = String::from("entity ");
+        let k = 1 + r.below(3);
+        let mut used: Vec<&str> = Vec::new();
+        for i in 0..k {
+            let mut nm = *r.pick(&names);
+            while used.contains(&nm) { nm = *r.pick(&names); }
+            used.push(nm);
+            if i > 0 { t.push_str(", "); }
+            t.push_str(nm);
+        }
+        match r.below(6) {
+            0 => {}
+            1 => { t.push_str(" in "); t.push_str(*r.pick(&paths)); }
+            2 => t.push_str(" in []"),
+            _ => {
+                let m = 1 + r.below(3);
+                t.push_str(" in [");
+                for i in 0..m { if i > 0 { t.push_str(", "); } t.push_str(*r.pick(&paths)); }
+                t.push(']');
+            }
+        }
+        match r.below(4) {
+            0 => {}
+            1 => { t.push(' '); t.push_str(*r.pick(&shapes)); }
+            _ => { t.push_str(" = "); t.push_str(*r.pick(&shapes)); }
+        }
+        if r.chance(50) { t.push_str(" tags "); t.push_str(*r.pick(&tys)); }
+        t.push(';');
+        if r.chance(25) {
+            let reps: &[(&str, &str)] = &[(";", ""), (";", ";;"), (",", ",,"), (",", ""), ("[", ""), ("]", ""), ("=", "= ="), ("in", "in in"), ("tags", "tags tags"), ("entity", ""), ("]", ",]"), ("{", "= {")];
+            let (a, b) = *r.pick(reps);
+            t = t.replacen(a, b, 1);
+        }
+        res.push(t);
+    }
+    res
+}
+
 /// single-token mutations of a type expression text (the parser must reject / accept like the model)
 fn mutate_text(r: &mut Rng, text: &str) -> String {
     let reps: &[(&str, &str)] = &[
@@ -1279,6 +1373,15 @@ fn probes(out: &mut Out, r: &mut Rng) {
         "{true: Long}", "{a: Long, a: String}", "{b: Long, a: String, \"b\": Bool}", "{\"\\u{1F600}\": Long}", "{a: {b: {c: {}}}}", "Set<{a: Long}>", "A :: B", "{in: Long}", "{type: type}", "{entity?: namespace}",
     ] {
         emit_parse(out, "probe type text", t);
+    }
+    // entity declarations for the declaration-level parser
+    for t in ["entity E;", "entity A, B in [G, NS::H] = { a?: Long } tags Set<String>;", "entity A in G { a: Long };", "entity A in [];", "entity A = {};", "entity A {} tags Long;",
+        "entity A = ;", "entity A, ;", "entity if;", "entity A in;", "entity A in [G,];", "entity A tags;", "entity in in in;", "entity tags tags tags;", "entity A = { a: Long } = { b: Long };",
+        "entity A tags Long in G;", "entity A", "entity;", "entity A in [G H];", "entity A in NS::;", "entity Set in Set tags Set;", "entity A in Set<B>;"] {
+        emit_parse_entity(out, "probe entity text", t);
+    }
+    for t in entity_decl_texts(r, 400) {
+        emit_parse_entity(out, "generated entity text", &t);
     }
     let _ = Arc::new(0);
 }
